@@ -24,14 +24,14 @@ func Run(c *core.Ctx) int {
 	only := os.Getenv("C13_ONLY") // development aid: substring filter on program names
 
 	var tables []*tprog
-	tables = append(tables, mathExactPrograms(c.Rand("math-exact"), nrnd, c.N(8, 1))...)
+	tables = append(tables, mathExactPrograms(c.Rand("math-exact"), nrnd, c.N(11, 1))...)
 	spProg, nSpecial := mathSpecialProgram()
 	tables = append(tables, spProg)
 	tables = append(tables, bitsPrograms(c.Rand("bits"), nrnd)...)
 	tables = append(tables, unicodePrograms(c.Rand("unicode"), c.Quick())...)
 	tables = append(tables, atomicPrograms(c.Rand("atomic"), c.N(4000, 200000))...)
 
-	nos := nosyncJobs(c.Rand("nosync"), c.N(3, 16), c.N(50, 250), c.N(40, 300))
+	nos := nosyncJobs(c.Rand("nosync"), c.N(2, 16), c.N(80, 100), c.N(40, 120))
 
 	if only != "" {
 		var ft []*tprog
